@@ -39,7 +39,8 @@ def _norm(fl, name):
 def _replay(name, law, other=None):
     def body(v):
         a, b, c, a2 = (v.get(k, 0.0) for k in ("a", "b", "c", "a2"))
-        lines = [f"a, b, c, a2 = {lit(a)}, {lit(b)}, {lit(c)}, {lit(a2)}",
+        lines = ["v = {" + ", ".join(f"{k!r}: {lit(x)}" for k, x in v.items()) + "}",
+                 f"a, b, c, a2 = {lit(a)}, {lit(b)}, {lit(c)}, {lit(a2)}",
                  f"N = fl.{name}()",
                  "f = lambda a, b: float(N.compute(a, b))",
                  f"spec = lambda a, b: {spec.PY[name]}",
@@ -54,7 +55,11 @@ def _replay(name, law, other=None):
             "annihilator": f"bad = not same(f(a,{'0.0' if name in spec.TNORMS else '1.0'}), {'0.0' if name in spec.TNORMS else '1.0'}, tol)",
             "le_min": "bad = not (f(a,b) <= min(a,b) + tol)",
             "ge_max": "bad = not (f(a,b) >= max(a,b) - tol)",
-            "arrays": "r = N.compute(np.array([a,b]), np.array([b,c])); bad = not (same(r[0], f(a,b), tol) and same(r[1], f(b,c), tol))",
+            "arrays": "X = [v[k] for k in sorted(v) if k.startswith('x')]; Y = [v[k] for k in sorted(v) if k.startswith('y')]\n"
+                      "A, B = np.array(X), np.array(Y); r = N.compute(A, B)\n"
+                      "col, row = np.array([[X[0]], [X[1]]]), np.array([Y]); r2 = N.compute(col, row)\n"
+                      "bad = not (same(r, [f(p, q) for p, q in zip(X, Y)], tol) and same(r2, [[f(p, q) for q in Y] for p in X[:2]], tol)"
+                      " and same(A, X) and same(B, Y) and same(col, [[X[0]], [X[1]]]) and same(row, [Y]))",
             "dual": f"M = fl.{other}(); bad = not same(float(M.compute(a,b)), 1 - f(1-a,1-b), tol)" if other else "bad = False",
         }[law]
         lines.append(chk)
@@ -92,18 +97,25 @@ def _ob_law(name, law, is_t, tier):
                 n = 2 if tier == "quick" else 3
                 xs = [rvar(f"x{i}") for i in range(n)]
                 ys = [rvar(f"y{i}") for i in range(n)]
-                r1 = N.compute(sym_array(xs), sym_array(ys))
+                A, B = sym_array(xs), sym_array(ys)
+                r1 = N.compute(A, B)
                 col = sym_array([[xs[0]], [xs[1]]])
                 row = sym_array([ys])
                 r2 = N.compute(col, row)
                 el1 = [N.compute(x, y) for x, y in zip(xs, ys)]
                 el2 = [[N.compute(x, y) for y in ys] for x in xs[:2]]
-                return r1, el1, r2, el2, xs, ys
+                return r1, el1, r2, el2, xs, ys, (A, B, col, row)
             raise AssertionError(law)
 
         for p in ob.paths(pre, body):
             if p.exc is not None:
-                ob.error(f"unexpected exception {type(p.exc).__name__}: {p.exc}")
+                if law == "arrays":
+                    n = 2 if tier == "quick" else 3
+                    ins2 = {f"x{i}": rvar(f"x{i}") for i in range(n)}
+                    ins2.update({f"y{i}": rvar(f"y{i}") for i in range(n)})
+                    ob.unexpected([unit(v) for v in ins2.values()], p, f"{name}/{law}", ins2, _replay(name, law))
+                else:
+                    ob.unexpected(pre, p, f"{name}/{law}", ins, _replay(name, law))
                 continue
             r = p.result
             rp = _replay(name, law)
@@ -135,15 +147,18 @@ def _ob_law(name, law, is_t, tier):
                 x = tf(r[0])
                 ob.prove(pre, p, z3.And(x.v >= a.v, x.v >= b.v), f"{name}/ge_max", ins, rp)
             elif law == "arrays":
-                r1, el1, r2, el2, xs, ys = r
+                r1, el1, r2, el2, xs, ys, (A, B, col, row) = r
                 pre2 = [unit(v) for v in xs + ys]
                 n = len(xs)
+                ins2 = {f"x{i}": x for i, x in enumerate(xs)}
+                ins2.update({f"y{i}": y for i, y in enumerate(ys)})
                 if kind_of(r1) != ("array", (n,)) or kind_of(r2) != ("array", (2, n)):
-                    ob.error(f"array result kinds {kind_of(r1)} {kind_of(r2)}")
+                    ob.prove(pre2, p, False, f"{name}/arrays/shape {kind_of(r1)} {kind_of(r2)}", ins2, rp)
                     continue
-                ins2 = {"a": xs[0], "b": ys[0], "c": ys[1]}
                 ob.prove(pre2, p, all_same(r1, el1), f"{name}/arrays/1d", ins2, rp)
                 ob.prove(pre2, p, all_same(r2, [e for row in el2 for e in row]), f"{name}/arrays/broadcast", ins2, rp)
+                ob.prove(pre2, p, z3.And(all_same(A, xs), all_same(B, ys), all_same(col, xs[:2]), all_same(row, ys)),
+                         f"{name}/arrays/arguments-not-modified", ins2, rp)
 
     return run
 
@@ -161,7 +176,7 @@ def _ob_dual(t, s):
 
         for p in ob.paths(pre, body):
             if p.exc is not None:
-                ob.error(f"unexpected exception {p.exc!r}")
+                ob.unexpected(pre, p, f"{t}~{s}/dual", {"a": a, "b": b}, _replay(t, "dual", s))
                 continue
             ob.prove(pre, p, same(p.result[0], p.result[1]), f"{t}~{s}/dual", {"a": a, "b": b}, _replay(t, "dual", s))
 
@@ -206,7 +221,7 @@ def _ob_fexact(name, is_t):
             f"verdict(bad, '{name} a=%r b=%r -> %r (spec %r, swapped %r)' % (a, b, r, spec(a, b), r2))"]), key=f"{name}/F")
         for p in ob.paths(pre, body):
             if p.exc is not None:
-                ob.error(f"unexpected exception {p.exc!r}")
+                ob.unexpected(pre, p, f"{name}/F", {"a": a, "b": b}, rpf)
                 continue
             r0, r1 = tf(p.result[0]), tf(p.result[1])
             ins = {"a": a, "b": b}
